@@ -256,6 +256,15 @@ _s.poke('a', 0)
 _s.settle()
 check('comb nba default', _s.peek('q'), 0)
 
+# inout ports: refused for simulation, accepted for linting (port names / widths checked, the net counts as driven)
+_pad = "module pad(input o, input oe, output i, inout p); assign i = p; assign p = (oe) ? o : 1'bZ; endmodule"
+_t = 'module m(input a, output r); wire oe; wire w; assign oe = 1; pad i_p(.o(a), .oe(oe), .i(r), .p(w)); endmodule ' + _pad
+check('inout refused for simulation', rules(_t), ['ERR:Unsupported'])
+check('inout accepted for lint', rules(_t, lint_only=True), [])
+check('inout unknown port', rules(_t.replace('.p(w)', '.q(w)'), lint_only=True), ['R5', 'R6'])
+check('inout width', rules(_t.replace('wire w;', 'wire [1:0] w;'), lint_only=True), ['R5'])
+
+
 if FAILS:
     print('vlog self-test FAILED:')
     for f in FAILS:
